@@ -57,7 +57,10 @@ CHECKS = {
                 'bookkeeping; this includes lookups against delete+insert of '
                 'another key (row-id reuse) and a second handle being opened '
                 '(every statement of the constructor is a scheduling point) '
-                'while another client writes.',
+                'while another client writes, and an iteration suspended '
+                'between two items while another client writes (the library '
+                'runs on real SQLite cursors, so a half-read statement keeps '
+                'its snapshot).',
                 note='scheduling points at SQL statements and file-system '
                 'calls; Python code between them runs atomically; processes '
                 'represented by clients with separate Cache objects',
@@ -123,8 +126,10 @@ CHECKS.update({
                 'depth over a ~60-operation mapping alphabet (native and '
                 'composite keys, inline and file-backed values, views, '
                 'equality, failing update, reopen, unpickle) must match '
-                'OrderedDict; lookups/replacements/setdefault/popitem by 2-3 '
-                'clients must be linearizable with no tolerated miss.',
+                'OrderedDict; lookups/replacements (also two file-to-file '
+                'replacements in a row and replacements inside a transaction '
+                'block)/setdefault/popitem by 2-3 clients must be linearizable '
+                'with no tolerated miss.',
                 note='', ref='§3 C12'),
     'C15': dict(engine='SCHED', tech='stateless exploration of all '
                 'interleavings of contender threads; invariant on an '
@@ -178,7 +183,10 @@ CHECKS.update({
                 'operations, a nested block that raises and is caught) from '
                 'three initial states is run with a raise after every prefix '
                 'and a failure injected at every statement/file operation '
-                'inside it: rows and value files must be exactly as before; '
+                'inside it, aborted by Exception and by BaseException, also '
+                'after an earlier write of the same client timed out: rows '
+                'and value files must be exactly as before and stay so after a '
+                'later committed write; '
                 'committed blocks match the reference; Deque/Index/'
                 'FanoutCache.transact likewise; a block against a reader, a '
                 'writer or another block (own and shared objects, Fanout '
@@ -190,7 +198,7 @@ CHECKS.update({
     'C07': dict(engine='CRASH', tech='exhaustive kill-point enumeration with '
                 'real SIGKILL of a forked worker, recovery judged against the '
                 'reference model of completed operations',
-                text='For 37 workloads (every mutating Cache method over '
+                text='For 39 workloads (every mutating Cache method over '
                 'inline and file-backed values, bulk removals, transaction '
                 'blocks, Deque and Index operations, the first open of a new '
                 'directory) a forked worker is killed before every database '
@@ -198,7 +206,10 @@ CHECKS.update({
                 'directory create/remove; a handle opened before the kill and '
                 'handles opened afterwards must see the old or the new state '
                 '(bulk removals: anything between), read every present key, '
-                'write at once, and check(fix=True) must leave a clean cache; '
+                'write at once, a recovered Deque/Index must also agree with '
+                'the reference on its ends, length, reverse iteration and an '
+                'insert/remove at both ends, and check(fix=True) must leave a '
+                'clean cache; '
                 'through an LD_PRELOAD shim the kill is also placed before '
                 'every write-class system call below the directory, i.e. '
                 'inside SQLite\'s commit.',
